@@ -219,47 +219,37 @@ def descriptors(gen: str) -> list[dict[str, Any]]:
     return [{"name": FIELD, "is_collection": c} for c in (True, False)]
 
 
+_FRAG_CACHE: dict[tuple[int, str], list[Fragment]] = {}
+
+
 def fragments(repo: Repo, gen: str) -> list[Fragment]:
+    """Per-descriptor fragments of the emitted accessor: the generator is evaluated on a one-field mapping for every
+    descriptor of the finite domain (geneval.run_generator); the fragment is what the `if sort_keys:` branch contains.
+    How the generator is organised internally does not matter."""
+    from .geneval import Fld, TypeInfo, branches, parse_body, run_generator
+
+    key = (id(repo), gen)
+    if key in _FRAG_CACHE:
+        return _FRAG_CACHE[key]
     f = repo.func(CODEGEN, gen)
-    consts = module_constants(f.mod)
-    b = _nested(f.node, "_build_body")
-    if b is None:
-        raise Unsupported(f"{gen} has no nested _build_body builder", f.node)
-    bf = Func(f.mod, f"{gen}._build_body", b, None)
-    # the accumulator is the nonlocal string the builder appends to
-    accs = [n for st in b.body if isinstance(st, ast.Nonlocal) for n in st.names]
-    if len(accs) != 1:
-        raise Unsupported(f"{gen}._build_body: expected one nonlocal accumulator, found {accs}", b)
-    pnames = [a.arg for a in b.args.args]
     out = []
     for d in descriptors(gen):
-        env = dict(consts)
-        fld = SimpleNamespace(name=d["name"], compare=d.get("compare", True), init=d.get("init", True))
-        ti = SimpleNamespace(is_collection=d.get("is_collection", False))
-        if not pnames:
-            raise Unsupported("builder without parameters", b)
-        env[pnames[0]] = fld
-        if len(pnames) > 1:
-            env[pnames[1]] = ti
-        if len(pnames) > 2:
-            raise Unsupported("builder with more than two parameters", b)
-        text = run_builder(b, env, accs[0])
-        out.append(Fragment(gen, GENERATORS[gen], d, text, parse_fragment(text) if text.strip() else [], bf))
+        fld = Fld(d["name"], d.get("compare", True), d.get("init", True))
+        cap = run_generator(repo, gen, [(fld, TypeInfo(d.get("is_collection", False)))])
+        srt, uns = branches(parse_body(cap.body or ""))
+        if [norm(x) for x in srt] != [norm(x) for x in uns]:
+            raise Unsupported(f"{gen}: for a single field the sorted and the unsorted branch differ", f.node)
+        text = "\n".join("    " + ast.unparse(x).replace("\n", "\n    ") for x in srt) + "\n"
+        out.append(Fragment(gen, GENERATORS[gen], d, text, srt, f))
+    _FRAG_CACHE[key] = out
     return out
 
 
 def accessor_name(repo: Repo, gen: str) -> tuple[str, ast.Call]:
-    """The ``fname`` constant handed to ``_gen_func`` and the call itself."""
-    f = repo.func(CODEGEN, gen)
-    call = None
-    for n in ast.walk(f.node):
-        if isinstance(n, ast.Call) and dotted(n.func) == "_gen_func":
-            call = n
-    if call is None or len(call.args) < 2:
-        raise Unsupported(f"{gen} does not call _gen_func(clz, fname, ...)", f.node)
-    consts: dict[str, Any] = {}
-    for st in f.node.body:
-        if isinstance(st, ast.Assign) and len(st.targets) == 1 and isinstance(st.targets[0], ast.Name) and isinstance(st.value, ast.Constant):
-            consts[st.targets[0].id] = st.value.value
-    name = const_eval(call.args[1], consts)
-    return name, call
+    """The accessor name handed to ``_gen_func`` and the call itself (from the evaluation of the generator)."""
+    from .geneval import Fld, TypeInfo, run_generator
+
+    cap = run_generator(repo, gen, [(Fld(FIELD), TypeInfo(False))])
+    if not isinstance(cap.fname, str) or cap.call is None:
+        raise Unsupported(f"{gen}: accessor name handed to _gen_func is not a constant", repo.func(CODEGEN, gen).node)
+    return cap.fname, cap.call
